@@ -61,9 +61,20 @@ pub fn identity_op<E: Est>(out: &mut Out, e: &mut E, which: usize) {
 /// same estimator as the add loop: property C20), interleaved with operations that must not change the state
 pub fn feed_any<E: Est>(out: &mut Out, e: &mut E, xs: &[f64], rng: &mut Rng) {
     let n = xs.len();
-    let route = rng.below(8);
+    let route = rng.below(10);
     let h = if n > 1 { rng.below(n) } else { 0 };
     match route {
+        // the source of an extend fails (panics) after h items and the caller recovers: what was consumed stays consumed,
+        // exactly as with an add loop; the rest arrives afterwards
+        8 => {
+            let r = std::panic::catch_unwind(std::panic::AssertUnwindSafe(|| {
+                let mut i = 0;
+                e.extend_lazy_from(&mut || { if i == h { panic!("source failed") } let x = xs[i]; i += 1; Some(x) });
+            }));
+            out.x(r.is_err(), || "a panic inside the iterator handed to extend was swallowed".to_string());
+            for x in &xs[h..] { e.add(*x) }
+        }
+        9 => { e.extend_lazy(&xs[..h], 4); for x in &xs[h..] { e.add(*x) } }
         0 | 1 => for x in xs { e.add(*x) },
         2 => e.extend_val(xs),
         3 => e.extend_ref(xs),
@@ -138,7 +149,8 @@ pub fn nan_expected(stat: &str, data: &[f64]) -> bool {
     }
 }
 pub fn panic_expected(stat: &str, data: &[f64]) -> bool {
-    stat.starts_with("sm") && !crate::data::spread_nonzero(data)
+    // the documented zero-variance assertion concerns orders >= 3 only
+    stat.starts_with("sm") && !matches!(stat, "sm0" | "sm1" | "sm2") && !data.is_empty() && !crate::data::spread_nonzero(data)
 }
 
 /// evaluate a merge tree with real estimators, emitting `T <ty> merge` lines
